@@ -223,7 +223,8 @@ class MemFilestore(VirtualFilestore):
 
 
 class SandboxNative(NativeFilestore):
-    """NativeFilestore confined to a sandbox directory: script paths `/x/y` live at root/x/y."""
+    """NativeFilestore confined to a sandbox directory: the handlers see the script's paths (`/x/y`),
+    every interface operation runs the library's own NativeFilestore code on `root/x/y`."""
 
     def __init__(self, root: Path):
         super().__init__()
@@ -231,14 +232,53 @@ class SandboxNative(NativeFilestore):
         self.reject: list = []
         self.calls: list[str] = []
 
-    def host(self, path: str) -> Path:
-        return self.root / path.lstrip("/")
+    def host(self, path) -> Path:
+        p = str(path)
+        if p.startswith(str(self.root)):        # NativeFilestore calls its own (overridden) methods
+            return Path(p)
+        return self.root / p.lstrip("/")
+
+    def read_data(self, file, offset, read_len=None):
+        return super().read_data(self.host(file), offset, read_len)
+
+    def file_size(self, file):
+        return super().file_size(self.host(file))
+
+    def file_exists(self, path):
+        return super().file_exists(self.host(path))
+
+    def is_directory(self, path):
+        return super().is_directory(self.host(path))
+
+    def truncate_file(self, file):
+        return super().truncate_file(self.host(file))
 
     def write_data(self, file, data, offset):
         self.calls.append("write_data")
         if self.reject:
             raise self.reject.pop(0)(file)
-        return super().write_data(file, data, offset)
+        return super().write_data(self.host(file), data, offset)
+
+    def create_file(self, file):
+        return super().create_file(self.host(file))
+
+    def delete_file(self, file):
+        return super().delete_file(self.host(file))
+
+    def rename_file(self, old_file, new_file):
+        return super().rename_file(self.host(old_file), self.host(new_file))
+
+    def replace_file(self, replaced_file, source_file):
+        return super().replace_file(self.host(replaced_file), self.host(source_file))
+
+    def remove_directory(self, dir_name, recursive=False):
+        return super().remove_directory(self.host(dir_name), recursive)
+
+    def create_directory(self, dir_name):
+        return super().create_directory(self.host(dir_name))
+
+    def calculate_checksum(self, checksum_type, file_path, size_to_verify, segment_len=4096):
+        return super().calculate_checksum(checksum_type, self.host(file_path), size_to_verify, segment_len)
 
     def put_file(self, path: str, data: bytes):
         p = self.host(path)
@@ -437,9 +477,7 @@ class World:
 
     # ---- paths: script paths are absolute posix strings; native maps them below the sandbox root
     def path(self, fsname: str, p: str) -> Path:
-        if self.fs_kind == "native":
-            return self.root / fsname / p.lstrip("/")
-        return Path(p)
+        return Path(p)          # handlers always see script paths; the sandbox maps them internally
 
     def strip(self, s):
         if s is None:
@@ -616,8 +654,6 @@ class World:
             sname = None if a["sname"] == "-" else a["sname"]
             dname = None if a["dname"] == "-" else a["dname"]
             # destination names live in the receiving handler's filestore
-            if dname is not None and self.fs_kind == "native":
-                dname = str(self.path(hname, dname))
             opts = None
             if a.get("msgs", "-") != "-":
                 opts = [msg_build(x) for x in a["msgs"].split(";")]
